@@ -215,6 +215,11 @@ func (inTx *InterceptedTransaction) verifyIfRelayedTxV2(tx *transaction.Transact
 		return err
 	}
 
+	// the signed message only covers a receiver of the configured length (other lengths are encoded as an empty string)
+	if len(userTx.RcvAddr) != inTx.pubkeyConv.Len() {
+		return process.ErrInvalidRcvAddr
+	}
+
 	err = inTx.verifySig(userTx)
 	if err != nil {
 		return err
